@@ -2,6 +2,8 @@ package trace
 
 import (
 	"context"
+	"io"
+	rt "runtime/trace"
 	"sync"
 
 	"go.opentelemetry.io/otel/attribute"
@@ -205,4 +207,57 @@ func HarnessC10ProviderRace() {
 	vndReach("joined")
 	vndAssert(len(rec1.ended) <= 1, "processor-sees-span-at-most-once")
 	vndAssert(len(rec2.ended) <= 1, "processor-sees-span-at-most-once")
+}
+
+// ---- C10.startend: Go execution tracing enabled; a processor hands the span
+// it receives in OnStart to another goroutine that ends it while Start is
+// still finishing (runtimeTrace stores the task's End function): no data race,
+// delivered exactly once
+var c10Tracing bool
+
+// models of runtime/trace used inside the engine (natively the real execution
+// tracer is started by the harness)
+func c10TraceEnabled() bool { return c10Tracing }
+func c10NewTask(ctx context.Context, name string) (context.Context, *rt.Task) {
+	return ctx, new(rt.Task)
+}
+func c10TaskEnd(t *rt.Task) { vndYield() }
+
+type c10HandOff struct {
+	c10Recorder
+	wg sync.WaitGroup
+}
+
+func (p *c10HandOff) OnStart(_ context.Context, s ReadWriteSpan) {
+	p.wg.Add(1)
+	go func() {
+		defer p.wg.Done()
+		s.End()
+	}()
+}
+
+func HarnessC10StartEndTraced() {
+	vndRaceOn(true)
+	c10Tracing = true
+	if !vndSymbolic() {
+		if rt.Start(io.Discard) == nil {
+			defer rt.Stop()
+		}
+	}
+	rec := &c10HandOff{}
+	limits := SpanLimits{AttributeValueLengthLimit: -1, AttributeCountLimit: -1, EventCountLimit: -1, LinkCountLimit: -1,
+		AttributePerEventCountLimit: -1, AttributePerLinkCountLimit: -1}
+	p := &TracerProvider{spanLimits: limits, sampler: AlwaysSample(), idGenerator: &c10IDs{}}
+	sps := spanProcessorStates{newSpanProcessorState(rec)}
+	p.spanProcessors.Store(&sps)
+	tr := &tracer{provider: p}
+	_, span := tr.Start(context.Background(), "s")
+	if vndChoice(2) == 1 {
+		span.End()
+	}
+	rec.wg.Wait()
+	c10Tracing = false
+	vndReach("joined")
+	vndAssert(len(rec.ended) == 1, "span-delivered-to-processor-exactly-once-with-execution-tracer")
+	vndAssert(!span.IsRecording(), "not-recording-once-end-returned")
 }
